@@ -1197,7 +1197,9 @@ namespace ipr::impl {
             if (physically_same(t.name(), id))
                return t;
          }
-         return *extendeds.insert(id, unary_compare());
+         // An extended built-in type is keyed on the identifier that names it.
+         constexpr auto cmp = [](auto& x, auto& y) { return impl::compare(x.name(), y); };
+         return *extendeds.insert(id, cmp);
       }
 
       const ipr::As_type& type_factory::get_as_type(const ipr::Expr& e)
